@@ -19,6 +19,7 @@
 #include "PointLocations.hpp"
 #include "VoronoiDensityGrid.hpp"
 #include "VoronoiGeneratorDistribution.hpp"
+#include "VoronoiGridFactory.hpp"
 #undef private
 #undef protected
 
@@ -1492,9 +1493,187 @@ static VoronoiDensityGrid *vor = nullptr;
 static Box<> vor_box;
 static std::vector< double > vor_xt, vor_dt;
 
+// run f in a forked child with a time limit; the child may print ORACLE lines.  true = it came
+// back.  A construction that aborts on its own asserts or does not finish in time (degenerate
+// clustered generator sets can do that) is reported as "gave-up", not as a property failure.
+template < typename F > static bool run_child(F f, const unsigned seconds) {
+  std::cout.flush();
+  fflush(stdout);
+  const pid_t pid = fork();
+  if (pid == 0) {
+    std::signal(SIGALRM, SIG_DFL);
+    alarm(seconds);
+    if (!getenv("C16_DEBUG") && !freopen("/dev/null", "w", stderr)) {
+    }
+    f();
+    std::cout.flush();
+    fflush(stdout);
+    _exit(0);
+  }
+  int st = 0;
+  if (pid < 0 || waitpid(pid, &st, 0) < 0)
+    return false;
+  return WIFEXITED(st) && WEXITSTATUS(st) == 0;
+}
+
+typedef std::map< uint64_t, double > FaceMap; // real neighbour -> total face area
+
+static std::vector< FaceMap > vor_face_maps(const VoronoiGrid &g, const uint64_t nc) {
+  std::vector< FaceMap > fm(nc);
+  for (uint64_t c = 0; c < nc; ++c) {
+    const std::vector< VoronoiFace > faces = g.get_faces(c);
+    for (size_t k = 0; k < faces.size(); ++k)
+      if (g.is_real_neighbour(faces[k].get_neighbour()))
+        fm[c][faces[k].get_neighbour()] += faces[k].get_surface_area();
+  }
+  return fm;
+}
+
+// geometric clauses on one constructed grid (public interface of VoronoiGrid only)
+static void vor_geometry(const std::string &tag, const VoronoiGrid &g, const std::vector< CoordinateVector<> > &gens,
+                         const Box<> &box) {
+  const uint64_t nc = gens.size();
+  const double bv = box.get_sides().x() * box.get_sides().y() * box.get_sides().z();
+  const double a0 = std::pow(bv, 2. / 3.);
+  double vol = 0.;
+  for (uint64_t c = 0; c < nc; ++c)
+    vol += g.get_volume(c);
+  if (getenv("C16_DEBUG"))
+    fprintf(stderr, "volsum %s rel %.3e\n", tag.c_str(), (vol - bv) / bv);
+  // the new construction (exact predicates) is held to 1e-9; the old construction cuts with its own
+  // tolerances: on clean code single cells are off by up to ~4e-7 relative and the sum by up to
+  // ~4e-9 (observed on clustered sets), so it is held to 1e-7 / areas to 1e-3
+  const bool exact = (tag == "New");
+  const double voltol = exact ? 1.e-9 : 1.e-7;
+  const double arel = exact ? 1.e-8 : 1.e-3, aabs = exact ? 1.e-12 : 1.e-8;
+  if (!(std::fabs(vol - bv) <= voltol * std::fabs(bv)))
+    oracle("voronoi-volumes-do-not-sum-to-box-volume " + tag);
+  for (uint64_t c = 0; c < nc; ++c)
+    if (g.get_index(gens[c]) != c) {
+      oracle("voronoi-generator-is-not-located-in-its-own-cell " + tag);
+      break;
+    }
+  // neighbour relations are mutual, with equal face areas (faces of negligible area are skipped: a
+  // degenerate face may exist on one side only; areas to 1e-5 relative: the old construction cuts
+  // with its own tolerances and a wall cell can be off by ~1e-6 relative on clean code)
+  const std::vector< FaceMap > fm = vor_face_maps(g, nc);
+  bool mutual = true, areas = true;
+  for (uint64_t c = 0; c < nc; ++c)
+    for (FaceMap::const_iterator it = fm[c].begin(); it != fm[c].end(); ++it) {
+      if (!(it->second > (exact ? 1.e-9 : 1.e-7) * a0) || it->first >= nc)
+        continue;
+      FaceMap::const_iterator back = fm[it->first].find(c);
+      if (back == fm[it->first].end())
+        mutual = false;
+      else if (!(std::fabs(back->second - it->second) <= arel * std::max(back->second, it->second) + aabs * a0)) {
+        if (getenv("C16_DEBUG"))
+          fprintf(stderr, "area %s c=%lu j=%lu A=%.17g back=%.17g a0=%g\n", tag.c_str(), (unsigned long)c, (unsigned long)it->first, it->second, back->second, a0);
+        areas = false;
+      }
+    }
+  if (!mutual)
+    oracle("voronoi-neighbour-relation-is-not-mutual " + tag);
+  else if (!areas)
+    oracle("voronoi-face-areas-of-mutual-neighbours-differ " + tag);
+  // located cell = cell of the nearest generator, on points between pairs of generators
+  const double diag = box.get_sides().norm();
+  for (uint64_t c = 0; c < nc && c < 400; ++c) {
+    const CoordinateVector<> &a = gens[c], &b = gens[(c * 7 + 3) % nc];
+    const double f = 0.1 + 0.8 * ((c * 2654435761ull) % 1000) / 1000.;
+    const CoordinateVector<> p(a.x() + f * (b.x() - a.x()), a.y() + f * (b.y() - a.y()), a.z() + f * (b.z() - a.z()));
+    const uint64_t k = g.get_index(p);
+    if (k >= nc) {
+      oracle("voronoi-located-cell-does-not-exist " + tag);
+      break;
+    }
+    const double dk = (p - gens[k]).norm();
+    bool bad = false;
+    for (uint64_t j = 0; j < nc && !bad; ++j)
+      if ((p - gens[j]).norm() < dk * (1. - 1.e-9) - 1.e-12 * diag)
+        bad = true;
+    if (bad) {
+      oracle("voronoi-located-cell-is-not-the-cell-of-the-nearest-generator " + tag);
+      break;
+    }
+  }
+}
+
 static void op_vor(const std::vector< std::string > &w) {
   const std::string &sub = w[1];
   static const bool noper[3] = {false, false, false};
+  // `vor geom <Old|New> <lloyd> box | generators`: geometric clauses on a (large / clustered)
+  // generator set, in a forked child with a time limit; nothing is kept
+  if (sub == "geom" && w.size() >= 12) {
+    const std::string type = w[2];
+    const uint64_t lloyd = u64(w[3]);
+    const Box<> box(CoordinateVector<>(dbl(w[4]), dbl(w[5]), dbl(w[6])), CoordinateVector<>(dbl(w[7]), dbl(w[8]), dbl(w[9])));
+    std::vector< CoordinateVector<> > gens;
+    for (size_t q = 11; q + 2 < w.size(); q += 3)
+      gens.push_back(CoordinateVector<>(dbl(w[q]), dbl(w[q + 1]), dbl(w[q + 2])));
+    const bool back = run_child(
+        [&]() {
+          HarnessGeneratorDistribution *gen = new HarnessGeneratorDistribution();
+          gen->pos = gens;
+          VoronoiDensityGrid grid(gen, box, type, (uint_fast8_t)lloyd, CoordinateVector< bool >(false));
+          HarnessDensityFunction df;
+          std::pair< cellsize_t, cellsize_t > block = std::make_pair(0, grid.get_number_of_cells());
+          grid.initialize(block, df);
+          vor_geometry(type, *grid._voronoi_grid, grid._generator_positions, box);
+        },
+        45);
+    std::cout << "vor geom " << gens.size() << (back ? " done" : " gave-up") << "\n";
+    return;
+  }
+  // `vor both box | generators`: the two construction algorithms on the same generators
+  if (sub == "both" && w.size() >= 10) {
+    const Box<> box(CoordinateVector<>(dbl(w[2]), dbl(w[3]), dbl(w[4])), CoordinateVector<>(dbl(w[5]), dbl(w[6]), dbl(w[7])));
+    std::vector< CoordinateVector<> > gens;
+    for (size_t q = 9; q + 2 < w.size(); q += 3)
+      gens.push_back(CoordinateVector<>(dbl(w[q]), dbl(w[q + 1]), dbl(w[q + 2])));
+    const bool back = run_child(
+        [&]() {
+          const uint64_t nc = gens.size();
+          VoronoiGrid *go = VoronoiGridFactory::generate("Old", gens, box, CoordinateVector< bool >(false));
+          go->compute_grid();
+          VoronoiGrid *gn = VoronoiGridFactory::generate("New", gens, box, CoordinateVector< bool >(false));
+          gn->compute_grid();
+          vor_geometry("Old", *go, gens, box);
+          vor_geometry("New", *gn, gens, box);
+          const double bv = box.get_sides().x() * box.get_sides().y() * box.get_sides().z();
+          const double a0 = std::pow(bv, 2. / 3.);
+          bool vols = true, ngbs = true;
+          const std::vector< FaceMap > fo = vor_face_maps(*go, nc), fn = vor_face_maps(*gn, nc);
+          for (uint64_t c = 0; c < nc; ++c) {
+            const double vo = go->get_volume(c), vn = gn->get_volume(c);
+            // (Old against New: the tolerances of the old construction, see vor_geometry)
+            if (!(std::fabs(vo - vn) <= 1.e-5 * std::max(vo, vn) + 1.e-10 * bv)) {
+              if (getenv("C16_DEBUG"))
+                fprintf(stderr, "vol c=%lu old %.17g new %.17g rel %.3e\n", (unsigned long)c, vo, vn, (vo - vn) / vn);
+              vols = false;
+            }
+            for (int dirn = 0; dirn < 2; ++dirn) {
+              const FaceMap &x = dirn ? fn[c] : fo[c], &y = dirn ? fo[c] : fn[c];
+              for (FaceMap::const_iterator it = x.begin(); it != x.end(); ++it) {
+                if (!(it->second > 1.e-7 * a0))
+                  continue;
+                FaceMap::const_iterator o = y.find(it->first);
+                if (o == y.end() || !(std::fabs(o->second - it->second) <= 1.e-3 * std::max(o->second, it->second) + 1.e-8 * a0)) {
+                  if (getenv("C16_DEBUG"))
+                    fprintf(stderr, "both dirn=%d c=%lu j=%lu A=%.17g other=%.17g a0=%g\n", dirn, (unsigned long)c, (unsigned long)it->first, it->second, o == y.end() ? -1. : o->second, a0);
+                  ngbs = false;
+                }
+              }
+            }
+          }
+          if (!vols)
+            oracle("voronoi-old-and-new-construction-disagree-on-a-cell-volume");
+          if (!ngbs)
+            oracle("voronoi-old-and-new-construction-disagree-on-the-neighbours-of-a-cell");
+        },
+        50);
+    std::cout << "vor both " << gens.size() << (back ? " done" : " gave-up") << "\n";
+    return;
+  }
   if (sub == "new" && w.size() >= 12) {
     delete vor; // (deletes the generator distribution as well)
     vor = nullptr;
@@ -1535,6 +1714,23 @@ static void op_vor(const std::vector< std::string > &w) {
         oracle("voronoi-generator-is-not-located-in-its-own-cell");
         break;
       }
+    {
+      // neighbour relation mutual with equal face areas (faces of negligible area skipped)
+      const std::vector< FaceMap > fm = vor_face_maps(*vor->_voronoi_grid, nc);
+      const double a0 = std::pow(bv, 2. / 3.);
+      bool mutual = true;
+      for (uint64_t c = 0; c < nc; ++c)
+        for (FaceMap::const_iterator it = fm[c].begin(); it != fm[c].end(); ++it) {
+          if (!(it->second > 1.e-7 * a0) || it->first >= nc)
+            continue;
+          FaceMap::const_iterator back = fm[it->first].find(c);
+          if (back == fm[it->first].end() ||
+              !(std::fabs(back->second - it->second) <= 1.e-3 * std::max(back->second, it->second) + 1.e-8 * a0))
+            mutual = false;
+        }
+      if (!mutual)
+        oracle("voronoi-neighbour-relation-is-not-mutual");
+    }
     return;
   }
   if (!vor) {
